@@ -22,7 +22,7 @@ RULE = ("bfs: from each initial curve (every knot vector of the block x control 
 ASSUMPTIONS = ["on these alphabets an inexact removal has an error far above 1e-9; if a clean call changes the function the exact "
                "deviation is computed and only a deviation above the tolerance bound is a violation",
                "minimality is asserted for polynomial curves only (as stated)"]
-SEQS_ALL = (("clean", "clean"),)
+SEQS_ALL = (("clean", "clean"), ("clean0",))
 SEQS_SHALLOW = (("knot_clean", "knot_clean", "degree_clean", "degree_clean", "clean"), ("degree_clean", "knot_clean", "clean"))
 
 
@@ -78,6 +78,8 @@ def cost(case):
 
 
 def call_clean(c, name):
+    if name == "clean0":
+        return lib.outcome(c.clean, 0)  # an explicit zero tolerance: only exact removals may be accepted
     return lib.outcome(getattr(c, name))
 
 
@@ -141,7 +143,7 @@ def run_case(case, res):
                 res.violation("curve_changed", f"{where}: {name}() changed the curve; knots {list(c.knotvector)}", **tags)
                 return
             prev = now
-            if name == "clean" and poly_curve:
+            if name in ("clean", "clean0") and poly_curve:
                 got = lib.exact_curve(c)
                 finals.add(key(got))
                 if got != minimal:
